@@ -47,9 +47,9 @@ extern size_t carquet_zstd_compress_bound(size_t src_size);
  */
 
 typedef struct carquet_page_writer {
-    carquet_buffer_t values_buffer;      /* Encoded values */
-    carquet_buffer_t def_levels_buffer;  /* Definition levels (RLE) */
-    carquet_buffer_t rep_levels_buffer;  /* Repetition levels (RLE) */
+    carquet_buffer_t values_buffer;      /* Encoded values (BOOLEAN: one byte per value until the page is finalized) */
+    carquet_buffer_t def_levels_buffer;  /* Definition levels of the page (raw int16, encoded when the page is finalized) */
+    carquet_buffer_t rep_levels_buffer;  /* Repetition levels of the page (raw int16, encoded when the page is finalized) */
     carquet_buffer_t page_buffer;        /* Final page with header */
 
     carquet_physical_type_t type;
@@ -280,6 +280,30 @@ static void update_statistics_double(carquet_page_writer_t* writer,
 }
 
 /* ============================================================================
+ * Level Collection
+ * ============================================================================
+ */
+
+/* Append the raw levels of one batch; without a levels array every entry is `fill` */
+static carquet_status_t append_levels(
+    carquet_buffer_t* raw,
+    const int16_t* levels,
+    int64_t count,
+    int16_t fill) {
+
+    if (levels) {
+        return carquet_buffer_append(raw, levels, (size_t)count * sizeof(int16_t));
+    }
+    for (int64_t i = 0; i < count; i++) {
+        carquet_status_t status = carquet_buffer_append(raw, &fill, sizeof(fill));
+        if (status != CARQUET_OK) {
+            return status;
+        }
+    }
+    return CARQUET_OK;
+}
+
+/* ============================================================================
  * Value Encoding
  * ============================================================================
  */
@@ -307,16 +331,22 @@ carquet_status_t carquet_page_writer_add_values(
         writer->num_nulls += (num_values - num_non_null);
     }
 
-    /* Encode definition levels */
+    /* Collect the levels of this batch. A page holds exactly one level block
+     * per kind, so the levels of all batches of the page are gathered here
+     * and encoded when the page is finalized. */
     if (writer->max_def_level > 0 && def_levels) {
-        encode_levels(def_levels, num_values, writer->max_def_level,
-                      &writer->def_levels_buffer);
+        carquet_status_t level_status = append_levels(
+            &writer->def_levels_buffer, def_levels, num_values, writer->max_def_level);
+        if (level_status != CARQUET_OK) {
+            return level_status;
+        }
     }
-
-    /* Encode repetition levels */
     if (writer->max_rep_level > 0 && rep_levels) {
-        encode_levels(rep_levels, num_values, writer->max_rep_level,
-                      &writer->rep_levels_buffer);
+        carquet_status_t level_status = append_levels(
+            &writer->rep_levels_buffer, rep_levels, num_values, 0);
+        if (level_status != CARQUET_OK) {
+            return level_status;
+        }
     }
 
     /* Encode values using PLAIN encoding.
@@ -330,9 +360,11 @@ carquet_status_t carquet_page_writer_add_values(
 
     switch (writer->type) {
         case CARQUET_PHYSICAL_BOOLEAN: {
+            /* Booleans are bit-packed over the whole page, not per batch:
+             * keep one byte per value until the page is finalized */
             const uint8_t* bools = (const uint8_t*)values;
-            status = carquet_encode_plain_boolean(bools, num_non_null,
-                                                   &writer->values_buffer);
+            status = carquet_buffer_append(&writer->values_buffer, bools,
+                                            (size_t)num_non_null);
             break;
         }
 
@@ -485,21 +517,36 @@ carquet_status_t carquet_page_writer_finalize(
     carquet_buffer_t uncompressed;
     carquet_buffer_init(&uncompressed);
 
+    carquet_status_t build_status = CARQUET_OK;
     if (writer->rep_levels_buffer.size > 0) {
-        carquet_buffer_append(&uncompressed,
-                               writer->rep_levels_buffer.data,
-                               writer->rep_levels_buffer.size);
+        build_status = encode_levels(
+            (const int16_t*)writer->rep_levels_buffer.data,
+            (int64_t)(writer->rep_levels_buffer.size / sizeof(int16_t)),
+            writer->max_rep_level, &uncompressed);
     }
-
-    if (writer->def_levels_buffer.size > 0) {
-        carquet_buffer_append(&uncompressed,
-                               writer->def_levels_buffer.data,
-                               writer->def_levels_buffer.size);
+    if (build_status == CARQUET_OK && writer->def_levels_buffer.size > 0) {
+        build_status = encode_levels(
+            (const int16_t*)writer->def_levels_buffer.data,
+            (int64_t)(writer->def_levels_buffer.size / sizeof(int16_t)),
+            writer->max_def_level, &uncompressed);
     }
-
-    carquet_buffer_append(&uncompressed,
-                           writer->values_buffer.data,
-                           writer->values_buffer.size);
+    if (build_status == CARQUET_OK) {
+        if (writer->type == CARQUET_PHYSICAL_BOOLEAN) {
+            if (writer->values_buffer.size > 0) {
+                build_status = carquet_encode_plain_boolean(
+                    writer->values_buffer.data,
+                    (int64_t)writer->values_buffer.size, &uncompressed);
+            }
+        } else {
+            build_status = carquet_buffer_append(&uncompressed,
+                                                  writer->values_buffer.data,
+                                                  writer->values_buffer.size);
+        }
+    }
+    if (build_status != CARQUET_OK) {
+        carquet_buffer_destroy(&uncompressed);
+        return build_status;
+    }
 
     *uncompressed_size = (int32_t)uncompressed.size;
 
@@ -607,9 +654,15 @@ carquet_status_t carquet_page_writer_finalize(
 
 size_t carquet_page_writer_estimated_size(const carquet_page_writer_t* writer) {
     if (!writer) return 0;
-    return writer->values_buffer.size +
-           writer->def_levels_buffer.size +
-           writer->rep_levels_buffer.size + 64;  /* Header overhead */
+    /* Levels are held raw (2 bytes each) and booleans one byte per value
+     * until the page is finalized; estimate their encoded size */
+    size_t values_size = writer->values_buffer.size;
+    if (writer->type == CARQUET_PHYSICAL_BOOLEAN) {
+        values_size = (values_size + 7) / 8;
+    }
+    return values_size +
+           writer->def_levels_buffer.size / 8 +
+           writer->rep_levels_buffer.size / 8 + 64;  /* Header overhead */
 }
 
 int64_t carquet_page_writer_num_values(const carquet_page_writer_t* writer) {
